@@ -197,6 +197,34 @@ func runC17(ctx *core.Ctx, out *core.Out) {
 
 func c17Read(out *core.Out, c *ws.Conn, exp []Ev, st *Stream, d map[string]interface{}, fail func(string, string, map[string]interface{}), mode int) bool {
 	var lastErr error
+	// control frames glued to the handshake are part of the stream: an application that keeps
+	// the payload strings its handlers are given must find them unchanged at the end
+	type kept struct {
+		kind int
+		s    string
+	}
+	var ctl []kept
+	dp := c.PingHandler()
+	c.SetPingHandler(func(s string) error { ctl = append(ctl, kept{9, s}); return dp(s) })
+	c.SetPongHandler(func(s string) error { ctl = append(ctl, kept{10, s}); return nil })
+	defer func() {
+		var want []Ev
+		for _, e := range st.Events {
+			if e.Kind == 9 || e.Kind == 10 {
+				want = append(want, e)
+			}
+		}
+		if lastErr == nil || len(ctl) != len(want) {
+			return // a lost frame is reported by the message checks
+		}
+		for i, k := range ctl {
+			out.Count("control_payloads_compared_at_the_end", 1)
+			if k.kind != want[i].Kind || k.s != string(want[i].Data) {
+				fail("control-payload-changed", fmt.Sprintf("control frame %d (opcode %d): the payload string its handler was given reads %q at the end of the connection, the peer sent %q", i, want[i].Kind, k.s, want[i].Data), d)
+				return
+			}
+		}
+	}()
 	for i := 0; ; i++ {
 		t, p, err := c.ReadMessage()
 		if err != nil {
